@@ -28,6 +28,7 @@ KF_DISMAX = ("TopDocs::order_by_score on a top-level DisjunctionMaxQuery of term
              "disjuncts (block-WAND ignores the DisjunctionMaxCombiner); a scoring collector gives max + tie_breaker * rest")
 
 
+# F38 and F42 are repaired in /repo; the texts are kept so that a regression is reported in the same words
 KF_NOFIELDNORM = ("TopDocs by score on a field indexed WithFreqs without fieldnorms: the postings serializer writes block-WAND "
                   "parameters (0,0) for full blocks, so their block-max score is 0 and block-WAND / the pruning term scorer skips "
                   "blocks that hold better documents")
@@ -256,7 +257,7 @@ def known_finding_runs(ctx):
     seen = []
     validate(ctx, vlib.read_ndjson(tp), "kf", expect=seen)
     ctx.cov["repaired_findings_regressed"] = {"dismax_sum": any(KF_DISMAX in s for s in seen)}
-    # recorded finding: no fieldnorms + frequencies (field `nf` = the title tokens, never used by the default generator)
+    # regression case of the repaired F38: no fieldnorms + frequencies (field `nf` = the title tokens; the default generators use it too)
     n = lambda x: {"k": "term", "f": "nf", "t": x, "opt": "freq"}
     bq = lambda cl: {"k": "bool", "cl": cl, "msm": 1 if all(c["o"] == "should" for c in cl) else 0, "explicit": False}
     key = {"kind": "score", "cmp": ["natural"]}
@@ -268,11 +269,9 @@ def known_finding_runs(ctx):
     tp = ctx.path("kf_nf_trace.ndjson")
     vlib.run_bin("topk_driver", ["search", "--seed", 1, "--docs", 3000, "--segments", 1, "--fixed", cp, "--out", tp], timeout=300)
     seen2 = []
-    before = ctx.cov["traces_validated_against_impl"]
-    validate(ctx, vlib.read_ndjson(tp), "kf_nf", expect=seen2)
-    ctx.cov["traces_validated_against_impl"] = before
-    ctx.cov["recorded_findings_reproduced"] = {"no_fieldnorms_block_max_zero": any(KF_NOFIELDNORM in s for s in seen2)}
-    # recorded finding: tie order lost in the merge of segment hits (800 documents in 5 segments, 195 matches of which most have no
+    validate(ctx, vlib.read_ndjson(tp), "regr_nf", expect=seen2)
+    ctx.cov["repaired_findings_regressed"]["F38 no_fieldnorms_block_max_zero"] = any(KF_NOFIELDNORM in s for s in seen2)
+    # regression case of the repaired F42: tie order lost in the merge of segment hits (800 documents in 5 segments, 195 matches of which most have no
     # `dt` value, ascending order with missing values first: rank 56 falls inside the group of equal keys of segment 2)
     tq = lambda x: {"o": "must", "q": {"k": "term", "f": "title", "t": x, "opt": "freq"}}
     case = {"q": {"k": "bool", "cl": [tq("all"), tq("t2"), tq("t0"), tq("t0")], "msm": 0, "explicit": False},
@@ -282,10 +281,8 @@ def known_finding_runs(ctx):
     tp = ctx.path("kf_ties_trace.ndjson")
     vlib.run_bin("topk_driver", ["search", "--seed", 10, "--docs", 800, "--segments", 5, "--fixed", cp, "--out", tp], timeout=300)
     seen3 = []
-    before = ctx.cov["traces_validated_against_impl"]
-    validate(ctx, vlib.read_ndjson(tp), "kf_ties", expect=seen3)
-    ctx.cov["traces_validated_against_impl"] = before
-    ctx.cov["recorded_findings_reproduced"]["merge_tie_order"] = any(KF_MERGETIES in s for s in seen3)
+    validate(ctx, vlib.read_ndjson(tp), "regr_ties", expect=seen3)
+    ctx.cov["repaired_findings_regressed"]["F42 merge_tie_order"] = any(KF_MERGETIES in s for s in seen3)
 
 
 def binding_selftest(ctx, topn_events, search_events):
